@@ -478,15 +478,42 @@ func onceEach(c *core.Ctx, d *astx.DeclInfo, rule, key, msg string, names ...str
 	}
 	scope := fnScope(c, d, 1)
 	var gone []string
+	renamed := false
 	for _, n := range names {
 		if len(scopeCalls(scope, named(n))) == 0 {
 			gone = append(gone, n)
+			if !ast.IsExported(n) && !declExists(c, relPkg(d.Pkg.PkgPath), n) {
+				renamed = true
+			}
 		}
 	}
-	if len(gone) > 0 {
+	if len(gone) > 0 && !renamed {
 		c.Fail(rule, key, pos(c, d.Decl), msg+" (no call of "+strings.Join(gone, ", ")+")")
 	} else {
 		c.Unrecognised(rule, key, pos(c, d.Decl), "the calls "+strings.Join(names, ", ")+" are no longer made once each in "+d.Obj.Name()+" itself (moved into a helper or duplicated): the rule is not evaluated")
 	}
 	return false
+}
+
+// declExists reports whether the repository package rel still declares a function or method
+// called name. Rules that treat "X is never called" as a violation first make sure X still
+// exists: when it was renamed or inlined, the absence of calls by that name proves nothing and
+// the obligation is an unrecognised shape.
+func declExists(c *core.Ctx, rel, name string) bool {
+	for obj, d := range index(c).Decls {
+		if obj.Name() == name && relPkg(d.Pkg.PkgPath) == rel && !strings.HasSuffix(c.Prog().Rel(d.Decl.Pos()), "_test.go") {
+			return true
+		}
+	}
+	return false
+}
+
+// failOrGone records a violation, or an unrecognised shape when the function the rule looks for
+// (an unexported helper of rel) no longer exists under that name.
+func failOrGone(c *core.Ctx, rel, name, rule, key, at, msg string) {
+	if declExists(c, rel, name) {
+		c.Fail(rule, key, at, msg)
+	} else {
+		c.Unrecognised(rule, key, at, "function "+name+" no longer exists in "+rel+" (renamed or inlined): "+msg+" — not evaluated")
+	}
 }
